@@ -1276,6 +1276,7 @@ theorem specDelete_eq (env : Env) (fault : Fault) (id : String) (db : Db) :
       | some _ =>
         if faultHits fault (if hasChild db id then 3 else 2) (if hasChild db id then 1 else 0) 0 0 then rejectDirty db
         else if db.any (fun p => !(p.1 == id) && refBytes p.2.f.ref == id) then rejectDirty db
+        else if ixVetoedFor env (if hasChild db id then .C else .P) .beforeDelete id then rejectDirty db
         else finish env fault (db.del id) (delFlows db id) := by
   unfold specDelete
   cases hg : db.get id with
@@ -1307,6 +1308,7 @@ theorem delete_refines (env : Env) (h : env.t = expectedReturns) (fault : Fault)
       ((view .P st.db id).isSome = true ∧
         faultHits (shiftFault fault c.fillP c.fillC) (if hasChild st.db id then 3 else 2) (if hasChild st.db id then 1 else 0) 0 0 = false ∧
         deleteConstraintErr st.db id = none ∧
+        ixVetoedFor env (if hasChild st.db id then .C else .P) .beforeDelete id = false ∧
         (passVetoes env (delFlows st.db id)).2 = true) := by
     rw [specDelete_eq]
     unfold view deleteConstraintErr
@@ -1319,20 +1321,26 @@ theorem delete_refines (env : Env) (h : env.t = expectedReturns) (fault : Fault)
         by_cases hr : st.db.any (fun p => !(p.1 == id) && refBytes p.2.f.ref == id) = true
         · simp [hfh', hr, rejectDirty]
         · have hr' : st.db.any (fun p => !(p.1 == id) && refBytes p.2.f.ref == id) = false := by simpa using hr
-          simp [hfh', hr', finish]
+          cases hix : ixVetoedFor env (if hasChild st.db id then .C else .P) .beforeDelete id <;>
+            simp [hfh', hr', hix, finish, rejectDirty]
+  have hixeq : (ixVetoed env .P .beforeDelete id = false ∧
+        ((view .C st.db id).isSome = true → ixVetoed env .C .beforeDelete id = false)) ↔
+      ixVetoedFor env (if hasChild st.db id then .C else .P) .beforeDelete id = false := by
+    rw [ixVetoedFor_false, hasChild_iff_view]
+    cases (view .C st.db id).isSome <;> simp
   have hmodel : (deleteParent env fault id c st).2.2 = .ok ↔
       (specDelete env (shiftFault fault c.fillP c.fillC) id st.db).accepted = true := by
     rw [hiff, hacc]
     constructor
-    · intro ⟨l1, hv, l2, l3, d, g⟩
-      exact ⟨hv, (delete_fault_iff fault c st.db id hv).mp ⟨l1, l2, l3⟩, d, g⟩
-    · intro ⟨hv, fh, d, g⟩
+    · intro ⟨l1, hv, l2, l3, d, ix, g⟩
+      exact ⟨hv, (delete_fault_iff fault c st.db id hv).mp ⟨l1, l2, l3⟩, d, hixeq.mp ix, g⟩
+    · intro ⟨hv, fh, d, ix, g⟩
       obtain ⟨l1, l2, l3⟩ := (delete_fault_iff fault c st.db id hv).mpr fh
-      exact ⟨l1, hv, l2, l3, d, g⟩
+      exact ⟨l1, hv, l2, l3, d, hixeq.mpr ix, g⟩
   refine ⟨hctx, hmodel, ?_⟩
   intro ho
   obtain ⟨h1, h2, h3, hcnt, h4⟩ := hok ho
-  obtain ⟨hv, hfh, hd, hp⟩ := hacc.mp (hmodel.mp ho)
+  obtain ⟨hv, hfh, hd, hix, hp⟩ := hacc.mp (hmodel.mp ho)
   rw [specDelete_eq]
   rw [delete_cnt fault c st.db id hv] at hcnt
   unfold view at hv
@@ -1344,7 +1352,7 @@ theorem delete_refines (env : Env) (h : env.t = expectedReturns) (fault : Fault)
       by_cases hr : st.db.any (fun p => !(p.1 == id) && refBytes p.2.f.ref == id) = true
       · simp [hr] at hd
       · simpa using hr
-    simp only [hfh, hr', Bool.false_eq_true, if_false, finish, passVetoes_all env _ hp]
+    simp only [hfh, hr', hix, Bool.false_eq_true, if_false, finish, passVetoes_all env _ hp]
     exact ⟨h3, h4, h1, h2, hcnt⟩
 
 theorem shiftFault_none (a b : Nat) : shiftFault .none a b = .none := rfl
@@ -1722,7 +1730,7 @@ theorem specTxWith_eq (env : Env) (txc : Bool) (db : Db) (ctx : Ctx) (body : Lis
       else { ok := false, db := db, fired := [], ctx := (specBody env db ctx body).ctx, specified := true } := rfl
 
 theorem attempt_agree (env : Env) (h : env.t = expectedReturns) (txc : Bool) (db : Db) (ctx : Ctx)
-    (body : List Step) (hp : Propagating body) (runs : Nat) (pl : List PreCall)
+    (body : List Step) (hp : Propagating body) (runs : Nat) (pl : List LogItem)
     (pr : List Nat) (ra : List Err) :
     TxAgree env
       (match (attempt env txc db ctx body).res with
@@ -1845,9 +1853,11 @@ theorem specCreate_accepted (env : Env) (fault : Fault) (σ : StoreId) (id : Str
   · simp [rejectClean] at h
   · split at h
     · simp [rejectDirty] at h
-    · rename_i h1 h2
-      simp only [h1, h2, finish] at h ⊢
-      exact ⟨rfl, passVetoes_all env _ h⟩
+    · split at h
+      · simp [rejectDirty] at h
+      · rename_i h1 h2 h3
+        simp only [h1, h2, h3, finish] at h ⊢
+        exact ⟨rfl, passVetoes_all env _ h⟩
 
 theorem specUpdate_accepted (env : Env) (fault : Fault) (σ : StoreId) (id : String) (f : PFields) (rank : String) (db : Db)
     (h : (specUpdate env fault σ id f rank db).accepted = true) :
@@ -1866,9 +1876,11 @@ theorem specUpdate_accepted (env : Env) (fault : Fault) (σ : StoreId) (id : Str
       simp only [hv] at h ⊢
       split at h
       · simp [rejectDirty] at h
-      · rename_i h2
-        simp only [h2, finish] at h ⊢
-        exact ⟨⟨base, rfl⟩, rfl, passVetoes_all env _ h⟩
+      · split at h
+        · simp [rejectDirty] at h
+        · rename_i h2 h3
+          simp only [h2, h3, finish] at h ⊢
+          exact ⟨⟨base, rfl⟩, rfl, passVetoes_all env _ h⟩
 
 theorem specDelete_accepted (env : Env) (fault : Fault) (id : String) (db : Db)
     (h : (specDelete env fault id db).accepted = true) :
@@ -1884,7 +1896,9 @@ theorem specDelete_accepted (env : Env) (fault : Fault) (id : String) (db : Db)
     · simp [h1, rejectDirty] at h
     · by_cases h2 : db.any (fun p => !(p.1 == id) && refBytes p.2.f.ref == id) = true
       · simp [h1, h2, rejectDirty] at h
-      · simp only [h1, h2, if_false, finish] at h ⊢
-        exact ⟨⟨e, rfl⟩, rfl, passVetoes_all env _ h⟩
+      · by_cases h3 : ixVetoedFor env (if hasChild db id then .C else .P) .beforeDelete id = true
+        · simp [h1, h2, h3, rejectDirty] at h
+        · simp only [h1, h2, h3, if_false, finish] at h ⊢
+          exact ⟨⟨e, rfl⟩, rfl, passVetoes_all env _ h⟩
 
 end StorageModel.Tx
